@@ -359,3 +359,39 @@ func H_C07_tounicode_precedence() {
 	vAssert("tounicode-takes-precedence", f.DecodeString(data) == want)
 	vReach("end")
 }
+
+// H_C07_spec_table_entries: entries of the named encodings that the PDF specification's tables give (ISO 32000-1 Annex D)
+// and that lie outside the Latin ranges compared against x/text charmaps.
+//
+//symgo:harness prop=C07 kernel=K1b-spec-table-entries
+//symgo:desc symbolic byte c; PDFDocEncoding 0x18..0x1F = breve, caron, circumflex, dotaccent, hungarumlaut, ogonek, ring, tilde (U+02D8 02C7 02C6 02D9 02DD 02DB 02DA 02DC); SymbolEncoding 0xA0 = Euro U+20AC, 0x61..0x7A spot entries alpha, beta, gamma; ZapfDingbatsEncoding 0x80..0x8D = U+2768..U+2775 (the ornamental brackets a89..a96 of Table D.6), 0x21..0x24 = U+2701..U+2704; through GetEncoding(name).Decode and DecodeString
+func H_C07_spec_table_entries() {
+	c := vAnyByte()
+	switch vAnyIntIn(0, 3) {
+	case 0:
+		vAssume(c >= 0x18 && c <= 0x1F)
+		want := []rune{0x02D8, 0x02C7, 0x02C6, 0x02D9, 0x02DD, 0x02DB, 0x02DA, 0x02DC}[c-0x18]
+		vAssert("pdfdoc-diacritics", GetEncoding("PDFDocEncoding").Decode(c) == want)
+		vAssert("pdfdoc-diacritics-string", GetEncoding("PDFDocEncoding").DecodeString([]byte{c}) == string(want))
+	case 1:
+		vAssume(c == 0xA0 || c == 'a' || c == 'b' || c == 'g')
+		want := rune(0x20AC)
+		switch c {
+		case 'a':
+			want = 0x03B1
+		case 'b':
+			want = 0x03B2
+		case 'g':
+			want = 0x03B3
+		}
+		vAssert("symbol-entries", GetEncoding("SymbolEncoding").Decode(c) == want)
+	case 2:
+		vAssume(c >= 0x80 && c <= 0x8D)
+		vAssert("zapfdingbats-ornamental-brackets", GetEncoding("ZapfDingbatsEncoding").Decode(c) == rune(0x2768+int(c-0x80)))
+		vAssert("zapfdingbats-brackets-not-dropped", GetEncoding("ZapfDingbatsEncoding").DecodeString([]byte{c}) == string(rune(0x2768+int(c-0x80))))
+	default:
+		vAssume(c >= 0x21 && c <= 0x24)
+		vAssert("zapfdingbats-scissors", GetEncoding("ZapfDingbatsEncoding").Decode(c) == rune(0x2701+int(c-0x21)))
+	}
+	vReach("end")
+}
